@@ -1875,6 +1875,9 @@ def gen_C16(r, n):
     for z in ((0.0, 0.0), (-0.0, 0.0)):
         for fn in ('sin', 'cos', 'tan'):
             c.add('TwoFloat.%s %s' % (fn, w2(z)), kind='zero_' + fn, x=z)
+    # the double-double FRAC_PI_2 itself and its negation: reduced argument exactly 0 in an odd quadrant (known finding for tan)
+    for pz in ((unhx('3ff921fb54442d18'), unhx('3c91a62633145c07')), (unhx('bff921fb54442d18'), unhx('bc91a62633145c07'))):
+        add(pz)
     for bad in ((math.nan, 0.0), (math.inf, 0.0), (1.0, 1.0), (1.0, math.nan), (-math.inf, -math.inf)):
         for fn in ('sin', 'cos', 'tan'):
             c.add('TwoFloat.%s %s' % (fn, w2(bad)), kind='invalid_arg', x=bad)
@@ -1917,7 +1920,14 @@ def chk_C16(c, ans):
         elif k == 'tan':
             t = m.tan(v)
             bound = P2(-50) * max(abs(t), P2(-30)) + P2(-80) * (1 + t * t)
+            n0 = len(out)
             err_fail(i, out, 'tan_bound', words(a), t, bound)
+            if len(out) > n0 and not finite(*words(a)):
+                # known finding: the reduced argument is exactly 0 in an odd quadrant (x is an odd multiple of the
+                # double-double FRAC_PI_2 itself), -1.0 / restricted_tan(0) divides by zero
+                ratio = V(*x) / V(unhx('3ff921fb54442d18'), unhx('3c91a62633145c07'))
+                if ratio.denominator == 1 and ratio.numerator % 2 != 0:
+                    out[-1]['key'] = 'tan_pole:zero-remainder'
         elif k == 'sin_cos':
             s_, c_ = got.get(('sin', w2(x))), got.get(('cos', w2(x)))
             if s_ is not None and c_ is not None and a != s_ + ' ' + c_:
